@@ -22,7 +22,7 @@ func main() {
 	run := ev.Start("C26", "model_checking")
 
 	sequential(run)
-	// further sub-checks (e.g. concurrent(run)) go here
+	concurrent(run)
 
 	run.Finish()
 }
